@@ -175,6 +175,11 @@ func (f *flowFn) pathTransfer(s *flowSrc, ins ssa.Instruction, S *pathState) {
 	if _, isPhi := v.(*ssa.Phi); isPhi {
 		return // handled on edges
 	}
+	if call, ok := v.(*ssa.Call); ok {
+		if cal := staticCallee(&call.Call); cal != nil && alwaysRecordsError(cal) {
+			S.err = true // a helper or closure that appends an error diagnostic on every path
+		}
+	}
 	if isDiagnosticsType(v.Type()) {
 		if call, ok := v.(*ssa.Call); ok {
 			if b, ok := call.Call.Value.(*ssa.Builtin); ok && b.Name() == "append" && len(call.Call.Args) > 1 && sliceLitHasErrorDiag(call.Call.Args[1]) {
@@ -963,4 +968,43 @@ func (f *flowFn) Check() *flowResult {
 		}
 	}
 	return res
+}
+
+var recordsErrMemo = map[*ssa.Function]int{}
+
+// alwaysRecordsError: fn is a module helper or closure every path through which appends an error
+// diagnostic (to a captured or passed diagnostics value).
+func alwaysRecordsError(fn *ssa.Function) bool {
+	if fn == nil || len(fn.Blocks) == 0 || !inModule(fn) {
+		return false
+	}
+	switch recordsErrMemo[fn] {
+	case 1:
+		return false
+	case 2:
+		return true
+	case 3:
+		return false
+	}
+	recordsErrMemo[fn] = 1
+	isErrAppend := func(ins ssa.Instruction) bool {
+		call, ok := ins.(*ssa.Call)
+		if !ok {
+			return false
+		}
+		if b, ok := call.Call.Value.(*ssa.Builtin); ok && b.Name() == "append" && len(call.Call.Args) > 1 && isDiagnosticsType(call.Type()) && sliceLitHasErrorDiag(call.Call.Args[1]) {
+			return true
+		}
+		if cal := call.Call.StaticCallee(); cal != nil && isDiagnosticsType(call.Type()) && len(call.Call.Args) == 2 && isErrorDiagPtr(call.Call.Args[1]) {
+			return true
+		}
+		return false
+	}
+	_, escapes := reachesReturnAvoiding(fn.Blocks[0], 0, isErrAppend, nil)
+	if escapes {
+		recordsErrMemo[fn] = 3
+		return false
+	}
+	recordsErrMemo[fn] = 2
+	return true
 }
